@@ -18,9 +18,9 @@ import (
 
 func init() {
 	vexplore.Register("C06", func(tier string) []*vexplore.Scenario {
-		d, b := 4, 1
+		d, b := 4, 2
 		if tier == "thorough" {
-			d, b = 5, 2
+			d, b = 5, 3
 		}
 		out := []*vexplore.Scenario{
 			{Name: fmt.Sprintf("sub-hist-D%d", d), Mode: "hist", Reset: kit.ResetGlobals, Body: func() { hist(d) },
